@@ -24,7 +24,8 @@ LeBytes(v, n) == IF n = 1 THEN <<v % 256>> ELSE <<v % 256, (v \div 256) % 256>>
 
 \* wire image of field i of a value, from the logged field value
 WireOf(c, i) ==
-    IF c.L[i].kind = "enum"
+    IF c.L[i].kind = "nested" THEN Pack(c.L[i].inner, c.vals[i])
+    ELSE IF c.L[i].kind = "enum"
     THEN LET t == c.vals[i]
              n == (c.L[i].w + 7) \div 8
          IN IF t[1] = "variant" THEN LeBytes(EnumEncode(Def(c.E[i]), t[2]), n) ELSE LeBytes(t[2], n)
@@ -33,7 +34,8 @@ WireOf(c, i) ==
 PackErrors(c) ==
     LET L == c.L
         want == Pack(L, [i \in 1..Len(L) |-> WireOf(c, i)])
-    IN (IF ~Valid(L) THEN {<<"layout-not-valid-in-model">>} ELSE {})
+    IN (IF ~Valid(L) \/ \E i \in 1..Len(L) : L[i].kind = "nested" /\ ~(Valid(L[i].inner) /\ TotalBits(L[i].inner) = L[i].w)
+        THEN {<<"layout-not-valid-in-model">>} ELSE {})
        \cup (IF c.res # "ok" THEN {<<"pack-failed", c.res>>} ELSE
              (IF c.packed # want THEN {<<"packed-bytes", c.packed, want>>} ELSE {})
              \cup (IF c.plen # PackedLen(L) THEN {<<"packed-len", c.plen, PackedLen(L)>>} ELSE {})
@@ -43,7 +45,9 @@ PackErrors(c) ==
 \* expected decode of field i from buffer
 FieldWant(c, i) ==
     LET got == UnpackField(c.L, c.buf, i) IN
-    IF c.L[i].kind = "enum" THEN EnumDecode(Def(c.E[i]), RawOf(got)) ELSE got
+    IF c.L[i].kind = "enum" THEN EnumDecode(Def(c.E[i]), RawOf(got))
+    ELSE IF c.L[i].kind = "nested" THEN Unpack(c.L[i].inner, got)
+    ELSE got
 
 UnpackErrors(c) ==
     LET L == c.L IN
